@@ -430,6 +430,8 @@ pub enum DeltaError {
     InconsistentNumbersOfPoints,
     #[error("{0:?} is not present in the variation model")]
     UnknownLocation(NormalizedLocation),
+    #[error("{0} does not fit in a 16-bit signed integer")]
+    ValueOutOfRange(f64),
 }
 
 /// Gryffindor!
